@@ -419,6 +419,13 @@ def oracle_c06(case, d, shape=None, vals=None):
             wm.ravel()[want] = True
             if m.shape != wm.shape or m.dtype != bool or not (m == wm).all():
                 fails.append('get_mask(%s) differs from the labelled pixels' % tag)
+            elif m.flags.writeable:
+                # the caller combines masks in place (mask |= other, mask[...] = False): the next
+                # request must again be the labelled pixels
+                m[...] = ~m
+                m2 = s.get_mask(subtree=subtree)
+                if m2.shape != wm.shape or not (m2 == wm).all():
+                    fails.append('get_mask(%s) differs from the labelled pixels after the previously returned mask was modified by the caller' % tag)
             pk_idx, pk_val = s.get_peak(subtree=subtree)
             fd = data.ravel()
             mx = max(fd[p] for p in want)
